@@ -21,6 +21,7 @@ pub fn prop() -> Prop {
                Phase 1: a real second thread clears MCR during run() of a non-terminating program; run() must return and the state must equal a shadow stepped to the same instruction count. Non-trivial = history with at least 2 calls that executed instructions; distinct = (program, history).",
         assumptions: &["stop conditions as documented in sim.rs rustdoc", "comparators are re-implemented in the harness", "a wall-clock watchdog on the threaded phase gives 'inconclusive', never a violation"],
         run, guard,
+        stages: || vec![st("tsan", "1", 24, 4, 1500)],
         level_text: "Runtime monitoring of every run-style API against a shadow that single-steps an identical simulator, over random call histories with breakpoints, limits, tripwires and MCR clears; plus a split-vs-unbroken comparison and a real-thread pause smoke test.",
         level_note: "Histories are sampled; the shadow encodes the documented conditions and is itself trusted.",
         technique: "shadow-execution monitor (step_in loop as executable specification) + split/unbroken metamorphic check",
